@@ -293,7 +293,14 @@ impl<'a> World<'a> {
 
     async fn run(&mut self) {
         let plan = self.plan;
-        self.rep.log(format!("client sim: mode={} task={:?} small_chunk_build={}", plan.mode, plan.task, SMALL_CHUNK_BUILD));
+        self.rep.log(format!("client sim: mode={} task={:?} small_chunk_build={} batch={}", plan.mode, plan.task, SMALL_CHUNK_BUILD, plan.batch));
+        if std::env::var("CHUNK_DOWNLOAD_BATCH_SIZE").ok().and_then(|v| v.parse::<u8>().ok()) != Some(plan.batch) {
+            self.rep.harness_error = Some(format!("plan generated under CHUNK_DOWNLOAD_BATCH_SIZE={} is executed by a process with another value", plan.batch));
+            return;
+        }
+        if plan.batch == 0 {
+            self.rep.fault("download_batch_size_zero");
+        }
         match &plan.task {
             Task::RoundTrip { len, repetitive } => {
                 let data = gen_data(plan.seed, *len, *repetitive);
@@ -355,6 +362,19 @@ impl<'a> World<'a> {
                 }
                 let mut keys: Vec<Vec<u8>> = vec![dm.name().0.to_vec()];
                 keys.extend(chunks.iter().map(|c| c.name().0.to_vec()));
+                // how 8: the holder answers the public address with the (valid) data-map chunk of ANOTHER file,
+                // whose chunks are all available too
+                let other_file_dm = if *how == 8 {
+                    let data2 = gen_data(plan.seed ^ 0xd2d2, (*len).max(3) / 2 + 700, false);
+                    let Some((dm2, chunks2)) = self.encrypt_and_check(&data2) else { return };
+                    for c in &chunks2 {
+                        self.hold(c);
+                    }
+                    Some(chunk_record_value(dm2.value()))
+                } else {
+                    None
+                };
+                let victim = if *how == 8 { &0u32 } else { victim };
                 let vkey = keys[*victim as usize % keys.len()].clone();
                 let other = keys[(*victim as usize + 1) % keys.len()].clone();
                 let foreign = chunk_record_value(&Bytes::from(gen_data(plan.seed ^ 0xf0f0, 900, false)));
@@ -373,6 +393,7 @@ impl<'a> World<'a> {
                         Answer::Found(try_serialize_record(&right, RecordKind::Scratchpad).expect("ser").to_vec())
                     }
                     7 => Answer::Found(labelled_chunk_value(&vkey, &chunk_payload(&foreign))),
+                    8 => Answer::Found(other_file_dm.clone().expect("built above")),
                     _ => {
                         let mut v = self.held[&vkey][..3].to_vec();
                         v.extend_from_slice(&[0xc1, 0xc1, 0xc1]);
@@ -387,6 +408,7 @@ impl<'a> World<'a> {
                     4 => "wrong_record_kind",
                     6 => "other_chunk_returned_under_its_own_key",
                     7 => "other_content_labelled_with_the_requested_address",
+                    8 => "data_map_chunk_of_another_file",
                     _ => "undecodable_bytes",
                 };
                 self.rep.fault(kind);
